@@ -168,7 +168,7 @@ var restoreCmd = &cobra.Command{
 			// args validation: nothing is restored unless every path is known
 			for _, arg := range args {
 				cleanedArg := filepath.Clean(arg)
-				cleanedArg = strings.ReplaceAll(cleanedArg, `\`, "/")
+				cleanedArg = filepath.ToSlash(cleanedArg)
 				if len(stagedTargets(cleanedArg, client.Idx, tree)) == 0 {
 					return fmt.Errorf("error: pathspec '%s' did not match any file(s) known to goit", arg)
 				}
@@ -176,7 +176,7 @@ var restoreCmd = &cobra.Command{
 
 			for _, arg := range args {
 				cleanedArg := filepath.Clean(arg)
-				cleanedArg = strings.ReplaceAll(cleanedArg, `\`, "/")
+				cleanedArg = filepath.ToSlash(cleanedArg)
 
 				// a file known to HEAD or to the index, or every such file beneath a directory
 				paths := stagedTargets(cleanedArg, client.Idx, tree)
@@ -190,7 +190,7 @@ var restoreCmd = &cobra.Command{
 			// args validation: nothing is restored unless every path is registered in the index, as a file or as a directory
 			for _, arg := range args {
 				cleanedArg := filepath.Clean(arg)
-				cleanedArg = strings.ReplaceAll(cleanedArg, `\`, "/")
+				cleanedArg = filepath.ToSlash(cleanedArg)
 				_, _, isRegistered := client.Idx.GetEntry([]byte(cleanedArg))
 				if !(isRegistered || client.Idx.IsRegisteredAsDirectory(cleanedArg)) {
 					return fmt.Errorf("error: pathspec '%s' did not match any file(s) known to goit", arg)
@@ -200,7 +200,7 @@ var restoreCmd = &cobra.Command{
 			// execute restore working directory
 			for _, arg := range args {
 				cleanedArg := filepath.Clean(arg)
-				cleanedArg = strings.ReplaceAll(cleanedArg, `\`, "/")
+				cleanedArg = filepath.ToSlash(cleanedArg)
 
 				if client.Idx.IsRegisteredAsDirectory(cleanedArg) {
 					// every tracked file beneath the directory, whether or not it exists on disk
